@@ -24,6 +24,28 @@ fn main() {
     };
     let seed: u64 = std::env::var("VERIF_SEED").ok().and_then(|s| s.parse::<i64>().ok()).map(|x| x as u64).unwrap_or(1);
     match args[1].as_str() {
+        "pool" => {
+            for a in kv::props::c06::POOL.iter().chain(kv::props::c06::OBJECTS.iter()).chain(kv::props::c06::RISKY.iter()) {
+                let src = kv::props::c06::call_script("koto.type", &[a]);
+                let r = kv::kx::run_default(&src);
+                println!("{:?} => {:?}", a, r.outcome);
+            }
+        }
+        "bench" => {
+            kv::core::install_panic_hook();
+            let t=std::time::Instant::now();
+            for _ in 0..2000 { let _ = kv::props::c06::eval_call(&kv::props::c06::call_script("list.get", &["[1, 2, 3]", "1"])); }
+            println!("eval_call: {:?} per call", t.elapsed()/2000);
+            let t=std::time::Instant::now();
+            for _ in 0..2000 { let _ = koto::Koto::default(); }
+            println!("Koto::default: {:?}", t.elapsed()/2000);
+            let t=std::time::Instant::now();
+            for _ in 0..200 { let _ = kv::core::guarded(|| { let v: Vec<u8> = vec![]; v[1] }); }
+            println!("guarded panic: {:?}", t.elapsed()/200);
+            let t=std::time::Instant::now();
+            for _ in 0..2000 { let _ = kv::props::c06::exercise_text("x = 1\nfor i in 0..10\n  x += i\nprint x\n", true); }
+            println!("exercise_text: {:?}", t.elapsed()/2000);
+        }
         "list" => {
             for p in kv::props::all() {
                 println!("{}", p.id);
